@@ -189,7 +189,7 @@ func c11Op(t *rapid.T, str func(max int) string, sub func(s string, max int) str
 // C11 (model half): string operations count code points and never corrupt text.
 func TestC11_Strings(t *testing.T) {
 	c := collector("C11", "strings")
-	rapid.Check(t, func(t *rapid.T) {
+	check(t, func(t *rapid.T) {
 		e, doc, op, s := c11Op(t, func(max int) string { return mixedString(t, max) }, func(s string, max int) string { return substringOf(t, s, max) })
 		text := ast.RenderWith(e, gen.Chooser{T: t})
 		c.Case()
@@ -323,7 +323,7 @@ const renameAlphabet = "abcxyzABZ019 ,-."
 // data renames the result the same way.
 func TestC11_Rename(t *testing.T) {
 	c := collector("C11", "rename")
-	rapid.Check(t, func(t *rapid.T) {
+	check(t, func(t *rapid.T) {
 		str := func(max int) string {
 			n := rapid.IntRange(0, max).Draw(t, "slen")
 			b := make([]byte, n)
